@@ -329,7 +329,14 @@ impl Ctx {
         let verif = verif_dir();
         let _ = std::fs::create_dir_all(format!("{}/replays", verif));
         let mut vio_json = vec![];
-        for (i, (sig, rec)) in violations.iter().enumerate() {
+        // many signatures usually have one cause: the 20 smallest witnesses are written out, the rest is counted
+        let mut order: Vec<usize> = (0..violations.len()).collect();
+        order.sort_by(|a, b| violations[*a].1.key.cmp(&violations[*b].1.key));
+        let shown: Vec<usize> = order.into_iter().take(20).collect();
+        if violations.len() > shown.len() {
+            println!("({} further violation signatures are not written out; all are counted in the evidence file)", violations.len() - shown.len());
+        }
+        for (i, (sig, rec)) in shown.iter().map(|i| &violations[*i]).enumerate() {
             let path = format!("{}/replays/{}-{}-{}.json", verif, self.prop, self.tier.name(), i);
             let body = json!({"property": self.prop, "signature": sig, "detail": rec.detail, "count": rec.count, "case": rec.case});
             let _ = std::fs::write(&path, serde_json::to_string_pretty(&body).unwrap());
